@@ -7,6 +7,7 @@ MODULES = {
     'C11': 'p_enc', 'C12': 'p_enc', 'C15': 'p_enc',
     'C01': 'p_art', 'C02': 'p_art', 'C10': 'p_art',
     'C07': 'p_lock',
+    'C05': 'p_qsbr', 'C06': 'p_qsbr',
 }
 
 
